@@ -34,6 +34,9 @@ func schedCheck(rule string) func(c *h.Ctx) {
 					specs = append(specs, cancelSpec{K: k, W: w, Mode: "pipeline", Point: "during-command", Cancels: "once", Via: "scheduler", Cmd: "sleep"})
 				}
 				specs = append(specs, cancelSpec{K: k, W: 0, Mode: "pipeline", Point: "after-finished", Cancels: "once", Via: "scheduler", Cmd: "sleep"})
+				// the pipeline included by one / by two stages of an outer pipeline: the condition error is met by nested loops
+				specs = append(specs, cancelSpec{K: k, W: 1, Mode: "pipeline", Point: "cond-error", Cancels: "once", Via: "cond", Cmd: "sleep", Nested: true})
+				specs = append(specs, cancelSpec{K: k, W: 2, Mode: "pipeline", Point: "cond-error", Cancels: "once", Via: "cond", Cmd: []string{"sleep", "ignore-int"}[k%2], Nested: true, Shared: true})
 			}
 			h.Par(len(specs), 16, func(i int) {
 				specs[i].Idx = 5000 + i
